@@ -25,6 +25,7 @@ RULE = (
     "member-by-member comparison, identical downstream values; text files to the precision of the fixed-width format (independent model of "
     "the number of decimals kept). Non-trivial: container with >=1 optional member absent and >=1 present or a zero patch pair; configuration "
     "with >=2 non-default parameters; text data with a non-finite value or exactly one bin."
+    ' Extensions: auto containers with distinct weight arrays; 127-300 patches (expanded from a drawn seed).'
 )
 ASSUMPTIONS = [
     "text format keeps max(0, 10 - len(sign+integer part) - 1) decimals by truncation; tolerance 10^-decimals + 1e-10",
